@@ -5,6 +5,8 @@ from engine import Family, rerun
 TOWER = Family("drv_tower", ["drv_tower.cpp"], "Trace_Tower")
 
 def key_of(ev, labels):
+    if ev.get("op", "").startswith("tm."):
+        return "tm:%s::%s:alias%s:%s" % (ev.get("cls"), ev.get("name"), ev.get("alias"), "+".join(labels))
     if ev.get("op") == "ext.cmp" and labels == ["cmp.integer-order"]:
         return "ext.cmp:montgomery-residue-order"
     return "%s:lvl%s:%s:alias%s:%s%s" % (ev.get("op"), ev.get("lvl"), ev.get("cfg"), ev.get("alias", 0),
@@ -25,8 +27,51 @@ def class_of(ev):
 
 def confirm_factory(run):
     def confirm(ev, labels):
+        if ev.get("op", "").startswith("tm."): return True      # TLC's execution of the extracted steps is deterministic
         try:
             return bool(rerun(run, TOWER, ev))
         except vlib.Infra:
             return True
     return confirm
+
+
+# ---- the tower's straight-line functions, extracted from the source text and executed by TowerMachine.tla on a toy field ----
+def tower_machine_cases(tier, with_alias):
+    """returns (program file, cases, unsupported function names)"""
+    import os, subprocess
+    sc = vlib.scratch()
+    prog = os.path.join(sc, "tower_prog.ndjson")
+    p = subprocess.run(["python3", os.path.join(vlib.VERIF, "tools", "extract_tower.py"), prog], stdout=subprocess.PIPE, stderr=subprocess.STDOUT, text=True,
+                       env=dict(os.environ, VERIF_REPO=vlib.REPO))
+    if p.returncode != 0: raise vlib.Infra("extract_tower failed: " + p.stdout[-500:])
+    rows = vlib.read_ndjson(prog)
+    cases, unsupported = [], []
+    nseed = 3 if tier == "quick" else 12
+    for r in rows:
+        if "steps" not in r:
+            unsupported.append("%s::%s (%s)" % (r["cls"], r["name"], r.get("unsupported", "")[:50])); continue
+        if r["name"] == "norm" or r.get("ovl", 1) != 1: continue
+        has_b = any(q["name"] == "b" and q["type"] == r["cls"] for q in r["params"])
+        b_restrict = any(q["name"] == "b" and q["restrict"] for q in r["params"])
+        a_ok = r["params"] and r["params"][0]["type"] == r["cls"] and not r["params"][0]["restrict"]
+        aliases = [0]
+        if with_alias:
+            if a_ok: aliases.append(1)
+            if has_b and not b_restrict: aliases += [2, 3]
+        for al in aliases:
+            for seed in range(1, nseed + 1):
+                cases.append({"op": "tm.case", "cls": r["cls"], "name": r["name"], "alias": al, "seed": seed + 100 * (vlib.seed() % 50), "src": "source-extracted", "cfg": "source"})
+        if tier == "thorough" and r["cls"] == "Fq2" and not with_alias and r["name"] in ("multiply", "add", "subtract"):
+            for x in range(0, 361):
+                cases.append({"op": "tm.all2", "cls": "Fq2", "name": r["name"], "alias": 0, "x": x, "src": "source-extracted", "cfg": "source"})
+    return prog, cases, unsupported
+
+def tower_machine(run, tier, with_alias):
+    """runs the cases through Trace_TowerMachine; returns (cases, fails, unsupported)"""
+    import os
+    prog, cases, unsupported = tower_machine_cases(tier, with_alias)
+    tf = os.path.join(vlib.scratch(), "tm.%s.trace.ndjson" % ("alias" if with_alias else "value"))
+    vlib.write_ndjson(tf, cases)
+    fails = run.validate("Trace_TowerMachine", [tf], env={"TOWERPROG": prog}, timeout=3000)
+    run.configs.add("source (TowerMachine, toy field F_19)")
+    return cases, fails, unsupported
